@@ -912,6 +912,10 @@ impl<'a> Dec<'a> {
                             return Err(format!("optional member header carries id {} instead of {}", id, m.id));
                         }
                         if size == 0 {
+                            // under the non-restoring reading the origin moves even for an absent member
+                            if !self.origin_restore {
+                                self.origin = self.pos;
+                            }
                             ms.push(None);
                         } else {
                             let saved = self.origin;
